@@ -5,7 +5,7 @@ For each /verif/seeded/<id>: copy /repo/include to a scratch directory, apply pa
 that change (meta.json: caught_by; the seed's own property first) with VERIF_REPO pointing at the copy, and report whether a violation is still
 reported.  Seeds run in parallel (each has its own copy; the checks use private work directories).  The scratch copies are removed.
 
-  tools/seedsweep.py [-j N] [id ...]          exit 0 iff every seed is reported as a violation (exit 1) by at least one check
+  tools/seedsweep.py [-j N] [--all] [--record] [id ...]          exit 0 iff every seed is reported as a violation (exit 1) by at least one check
 """
 import concurrent.futures
 import json
@@ -32,28 +32,51 @@ def one(sid):
         shutil.rmtree(sc, ignore_errors=True)
         return sid, "patch does not apply to the current tree: " + r.stdout.strip().splitlines()[-1][:120], []
     plan = [prop] + [c for c in meta.get("caught_by", []) if c != prop]
+    if ALL:
+        plan += [c for c in CHECKS if c not in plan]
     env = dict(os.environ, VERIF_REPO=sc)
     hits = []
+    det = {}
     for c in plan:
         if not os.path.exists(os.path.join(VERIF, "checks", c.lower() + ".py")):
             continue
-        for tier in ("quick", "thorough"):
+        for tier in ("quick", "thorough") if c == prop else ("quick",):
             r = subprocess.run([os.path.join(VERIF, "bin/vcheck"), c, "--tier", tier], cwd=VERIF, env=env, stdout=subprocess.PIPE, stderr=subprocess.STDOUT, text=True)
+            inst = [l for l in r.stdout.splitlines() if l.startswith("  rule=")]
+            broken = [l for l in r.stdout.splitlines() if l.startswith("ANALYSIS-BROKEN")]
+            det["%s/%s" % (c, tier)] = dict(exit=r.returncode, violations=len(inst), first=[i[2:300] for i in inst[:3]], broken=[b[:200] for b in broken[:2]])
             if r.returncode == 1:
-                inst = [l for l in r.stdout.splitlines() if l.startswith("  rule=")]
                 hits.append("%s/%s %s" % (c, tier, inst[0][2:110] if inst else ""))
                 break
-        if hits:
+        if hits and not (ALL and RECORD and c == prop):
             break
     shutil.rmtree(sc, ignore_errors=True)
+    if RECORD:
+        meta.setdefault("detection", {}).update(det)
+        meta["caught_by"] = sorted({k.split("/")[0] for k, v in meta["detection"].items() if v["exit"] == 1})
+        meta["caught_by_own_property_check"] = any(v["exit"] == 1 for k, v in meta["detection"].items() if k.startswith(prop + "/"))
+        with open(os.path.join(dst, "meta.json"), "w") as fh:
+            json.dump(meta, fh, indent=1)
     return sid, None, hits
 
 
+CHECKS = ["C01", "C02", "C03", "C04", "C05", "C06", "C07", "C08", "C09", "C10", "C11", "C12", "C13", "C16", "C17", "C18", "C19", "C20"]
+ALL = False
+RECORD = False
+
+
 def main(argv):
+    global ALL, RECORD
     jobs = 8
     if argv[:1] == ["-j"]:
         jobs = int(argv[1])
         argv = argv[2:]
+    while argv and argv[0] in ("--all", "--record"):
+        if argv[0] == "--all":
+            ALL = True         # when the seed's own check and the recorded ones are silent, try every other check (quick tier)
+        else:
+            RECORD = True      # write the outcome into the seed's meta.json
+        argv = argv[1:]
     ids = argv or sorted(d for d in os.listdir(SEEDED) if os.path.exists(os.path.join(SEEDED, d, "meta.json")))
     os.makedirs(SCRATCH, exist_ok=True)
     missed = 0
